@@ -738,6 +738,66 @@ class AfterFailedFile(Part):
         return res
 
 
+class MaskImages(Part):
+    name = "blocks_with_a_mask_shaped_image"
+    desc = "text level: for each mask-shaped value M the address X with image M and neighbours of X that differ only in host bits: all images keep their host bits and agree in the leading bits"
+
+    def __init__(self, tier, seed):
+        self.tier, self.seed = tier, seed
+
+    def cases(self):
+        return [{"B": B, "salt": s} for B in (1, 8, 16, 24) for s in ("saltForTest", "demoSalt12", "seed%d" % self.seed)]
+
+    def run(self, case):
+        import io
+
+        from mc import seams
+        from netconan.anonymize_files import FileAnonymizer
+
+        res = Res()
+        B = case["B"]
+        low = (1 << B) - 1
+        ref = ipdom.make_v4(["md5", case["salt"]], B, None, None)
+        groups = []
+        for mval in sorted(refs.MASKS32)[:: (3 if self.tier == "quick" else 1)]:
+            x = ref.deanonymize(mval)
+            hosts = sorted({x, x ^ 1, x ^ (low & 0x55555555) or x ^ 1, (x & ~low) | (low & 0x33), (x & ~low)} - set())
+            hosts = [h & 0xFFFFFFFF for h in hosts if not refs.is_mask32(h & 0xFFFFFFFF)]
+            if len(hosts) >= 2:
+                groups.append((mval, hosts))
+        text = "".join("peer %s\n" % refs.v4_text(h) for _, hs in groups for h in hs)
+        with seams.capture_logs():
+            fa = FileAnonymizer(anon_pwd=False, anon_ip=True, salt=case["salt"], preserve_suffix_v4=B, preserve_suffix_v6=B)
+            out = io.StringIO()
+            fa.anonymize_io(io.StringIO(text), out)
+        got = [ln.split()[1] for ln in out.getvalue().splitlines()]
+        k = 0
+        for mval, hs in groups:
+            imgs = []
+            for h in hs:
+                v = refs.v4_token_value(got[k]) if k < len(got) else None
+                k += 1
+                imgs.append(v)
+                res.evals += 1
+            res.nt((B, case["salt"], mval))
+            bad = None
+            if any(v is None for v in imgs):
+                bad = "output-token-not-address"
+            elif any((h & low) != (v & low) for h, v in zip(hs, imgs)):
+                bad = "host-bits-changed"
+            elif len({v >> B for v in imgs}) != 1:
+                bad = "leading-bits-depend-on-host-bits"
+            if bad:
+                res.violation("%s|mask-shaped-image" % bad,
+                              "salt %r host bits %d, block of the address whose image is %s: %r -> %r" % (
+                                  case["salt"], B, refs.v4_text(mval), [refs.v4_text(h) for h in hs],
+                                  [refs.v4_text(v) if v is not None else None for v in imgs]), case)
+                break
+        res.out(len(groups))
+        res.samples.append({"case": case, "blocks": len(groups)})
+        return res
+
+
 def parts(tier, seed):
     from props import c05
 
@@ -745,4 +805,4 @@ def parts(tier, seed):
     cli.name = "cli_private_and_listed_networks"
     cli.desc = "main() with --preserve-private-addresses / --preserve-addresses / --preserve-prefixes: outside stays outside"
     return [PrefixPart(tier, seed), HostBitsPart(tier, seed), LazyPart(tier, seed), WiringPart(tier, seed),
-            SuffixWiringPart(tier, seed), SecondAnonymizer(tier, seed), Histories(tier, seed), AfterFailedFile(tier, seed), LongHistory(tier, seed), cli]
+            SuffixWiringPart(tier, seed), SecondAnonymizer(tier, seed), Histories(tier, seed), AfterFailedFile(tier, seed), MaskImages(tier, seed), LongHistory(tier, seed), cli]
